@@ -44,6 +44,19 @@ def dynamic(ctx):
         if not hs:
             raise vlib.Infra("FloodSubDyn model mutant %s / %s: no counterexample (directed scenario missing)\n%s" % (bug, cfg, r.out[-1500:]))
         out.append(_complete(json.loads(hs[0].encode().decode("unicode_escape"))["steps"], *DYN["line"]))
+    # stale channel entry (subscribe + release within one sweep on the middle node of a line whose ends are subscribed): an authentic message
+    # replayed to that node must be dropped, not forwarded
+    r = ctx.tlc("MC_FloodSubDyn", cfg="MC_FloodSubDynDirS.cfg", workers=1, timeout=600, env={"BUG": "stalechan"}, expect_ok=False, count=False)
+    hs = re.findall(r'<<"DHIST", "(.*)">>', r.out)
+    if not hs:
+        raise vlib.Infra("FloodSubDyn model mutant stalechan: no counterexample (directed scenario missing)")
+    ren = {"a": "b", "b": "a", "c": "c", "": ""}
+    steps = [dict(s, n=ren[s["n"]]) for s in json.loads(hs[0].encode().decode("unicode_escape"))["steps"]]
+    steps += [{"a": "linkup", "n": "", "id": 0, "subs": ["b", "c"], "w": True}, {"a": "toggle", "n": "a", "id": 0, "subs": [], "w": True},
+              {"a": "toggle", "n": "c", "id": 0, "subs": [], "w": True}, {"a": "freeze", "n": "", "id": 0, "subs": [], "w": True},
+              {"a": "publish", "n": "a", "id": 1, "subs": [], "w": True},
+              {"a": "inject", "n": "b", "id": 0, "subs": ["a"], "w": True, "cls": "genuine"}, {"a": "publish", "n": "c", "id": 3, "subs": [], "w": True}]
+    out.append({"topo": DYN["line"][1], "nodes": ["a", "b", "c"], "steps": steps})
     per = 4 if ctx.tier == "quick" else 60
     seen = set()
     for topo in ("line", "tri"):
